@@ -109,10 +109,14 @@ class Index:
                     self.parse_errors.append((rel, str(e)))
                     continue
                 self.files[rel] = (src, tree)
-                for node in tree.body:
-                    self._index_top(rel, node)
         if self.parse_errors:
             raise AnalysisError(f"cannot parse: {self.parse_errors}")
+        # private names that were only renamed are mapped back to the names the rules know (see sa/canon.py)
+        from sa import canon
+        self.renames = canon.recover(self.files)
+        for rel, (src, tree) in self.files.items():
+            for node in tree.body:
+                self._index_top(rel, node)
         self._sub = None
 
     def _index_top(self, rel, node):
